@@ -12,6 +12,7 @@ ItemAt(g) ==
   ELSE IF g <= O3 THEN WalkAt(g - O2)
   ELSE IF g <= O4 THEN RareAt(g - O3)
   ELSE HistAt(g - O4)
+Histories == IF "VERIF_TIER" \in DOMAIN IOEnv /\ IOEnv.VERIF_TIER = "thorough" THEN 300 ELSE 40
 VARIABLE n
 INSTANCE GenBase
 =============================================================================
